@@ -401,6 +401,34 @@ fn oracle(real: &Sexp, own_ok: bool, spec: &Sexp) -> Option<(String, String)> {
     }
 }
 
+enum Pred {
+    Oracle(String),
+    Order,
+}
+
+/// the case with the import lines of every file in reverse order
+fn reversed(case: &Case) -> Case {
+    let mut c = case.clone();
+    for f in c.files.iter_mut() {
+        f.lines.reverse();
+    }
+    c
+}
+
+/// equal as far as order independence demands: the same definitions, or an error in both
+fn same_modulo_order(ra: &Sexp, rb: &Sexp) -> bool {
+    match (ra.head(), rb.head()) {
+        (Some("ok"), Some("ok")) => sorted_items(ra) == sorted_items(rb),
+        (Some("ok"), _) | (_, Some("ok")) => false,
+        // which error is reported may depend on the order; that one is reported may not
+        (Some("ext-err"), Some("ext-err")) => true,
+        (Some("ext-err"), _) | (_, Some("ext-err")) => false,
+        (Some("panic"), Some("panic")) => true,
+        (Some("panic"), _) | (_, Some("panic")) => false,
+        _ => true,
+    }
+}
+
 struct Ctx<'a> {
     rep: &'a mut Report,
     drv: &'a mut Driver,
@@ -420,13 +448,25 @@ impl<'a> Ctx<'a> {
         (real, own, model, spec)
     }
 
-    /// greedy shrink of an O failure keeping its coarse class
-    fn shrink(&mut self, case: &Case, coarse: &str) -> Case {
+    /// does the failure (an O class, or order dependence against the line-reversed twin) show on this case?
+    fn holds(&mut self, pred: &Pred, c: &Case) -> bool {
+        match pred {
+            Pred::Oracle(coarse) => {
+                let (real, own, _, spec) = self.answers(c);
+                matches!(oracle(&real, own, &spec), Some((k, _)) if &k == coarse)
+            }
+            Pred::Order => {
+                let (ra, _) = self.real.run(c);
+                let (rb, _) = self.real.run(&reversed(c));
+                !same_modulo_order(&ra, &rb)
+            }
+        }
+    }
+
+    /// greedy shrink of an O failure keeping its class
+    fn shrink(&mut self, case: &Case, pred: &Pred) -> Case {
         let mut cur = case.clone();
-        let still = |ctx: &mut Ctx, c: &Case| -> bool {
-            let (real, own, _, spec) = ctx.answers(c);
-            matches!(oracle(&real, own, &spec), Some((k, _)) if k == coarse)
-        };
+        let still = |ctx: &mut Ctx, c: &Case| -> bool { ctx.holds(pred, c) };
         loop {
             let mut progressed = false;
             // drop a whole non-root file that nobody's lines would then dangle on: remove lines pointing to it too
@@ -530,7 +570,7 @@ impl<'a> Ctx<'a> {
             self.rep.count(&format!("o-fail-unshrunk:{coarse}"));
             if n < 25 {
                 self.shrunk.insert(coarse.clone(), n + 1);
-                let small = self.shrink(case, &coarse);
+                let small = self.shrink(case, &Pred::Oracle(coarse.clone()));
                 let (r2, o2, _, s2) = self.answers(&small);
                 let what2 = oracle(&r2, o2, &s2).map(|x| x.1).unwrap_or(what);
                 let sig = format!("{coarse}:{}", shape_class(&small));
@@ -551,18 +591,24 @@ impl<'a> Ctx<'a> {
         let (rb, _) = self.real.run(b);
         self.rep.o_cases += 1;
         self.rep.count("o:order-independence-pairs");
-        let same = match (ra.head(), rb.head()) {
-            (Some("ok"), Some("ok")) => sorted_items(&ra) == sorted_items(&rb),
-            (Some("ok"), _) | (_, Some("ok")) => false,
-            // which error is reported may depend on the order; that one is reported may not
-            (Some("ext-err"), Some("ext-err")) => true,
-            (Some("ext-err"), _) | (_, Some("ext-err")) => false,
-            _ => true,
-        };
-        if !same {
-            let sig = format!("order:{}", shape_class(a));
-            self.rep.fail("O", &sig, &format!("permuting import lines changes the result: {ra} vs {rb}"),
-                json!({"perm_of": a.to_json(), "permuted": b.to_json()}));
+        if !same_modulo_order(&ra, &rb) {
+            let n = *self.shrunk.get("order").unwrap_or(&0);
+            self.rep.count("o-fail-unshrunk:order");
+            if n < 25 {
+                self.shrunk.insert("order".into(), n + 1);
+                if self.holds(&Pred::Order, a) {
+                    let small = self.shrink(a, &Pred::Order);
+                    let twin = reversed(&small);
+                    let (sa, _) = self.real.run(&small);
+                    let (sb, _) = self.real.run(&twin);
+                    let sig = format!("order:{}", shape_class(&small));
+                    self.rep.fail("O", &sig, &format!("reversing the import lines changes the result: {sa} vs {sb}"),
+                        json!({"perm_of": small.to_json(), "permuted": twin.to_json()}));
+                } else {
+                    self.rep.fail("O", "order:unshrunk", &format!("permuting import lines changes the result: {ra} vs {rb}"),
+                        json!({"perm_of": a.to_json(), "permuted": b.to_json()}));
+                }
+            }
         }
     }
 }
